@@ -1,4 +1,9 @@
+import e2e_e2esettings
+
 SPEC = {
+    # the property at its observation point: the started collector (real binary, no hook) must USE what the documented
+    # order resolves to — sockets, statistics, pid / log / cache files, judged from outside the process
+    "extra": [e2e_e2esettings.settings_cycles],
     "corr": [{"kind": "options", "quick": 8000, "thorough": 500000,
               "runner": {"pkg": "./vflow", "test": "TestVerifOptions", "race": False}}],
     "rule": "real NewOptions+flagSet on random subsets of {environment, file, command line} x 0..4 of the 45 documented "
